@@ -476,6 +476,9 @@ impl Monitor for Hub {
                 u.queued += 1;
                 let e = u.in_flight.entry(ptr).or_insert((len, 0));
                 e.1 += 1;
+                if e.1 == 1 {
+                    crate::watchalloc::watch(ptr, len);
+                }
             }
             UringEvent::Completed { ptr, result } => {
                 u.completed += 1;
@@ -491,6 +494,7 @@ impl Monitor for Hub {
                 };
                 if gone {
                     u.in_flight.remove(&ptr);
+                    crate::watchalloc::unwatch(ptr);
                 }
             }
             UringEvent::Dropped { ptr, len } => {
@@ -620,7 +624,12 @@ impl Hub {
     /// (queued, completed, completed with error, still in flight = leaked on purpose, violations)
     pub fn uring_stats(&self) -> (u64, u64, u64, usize, Vec<String>) {
         let u = self.uring.lock();
-        (u.queued, u.completed, u.completed_with_error, u.in_flight.len(), u.violations.clone())
+        let mut violations = u.violations.clone();
+        let (freed, ptr, len) = crate::watchalloc::freed_in_flight();
+        if freed > 0 {
+            violations.push(format!("{freed} deallocation(s) returned memory to the allocator that was still queued to the kernel (io_uring write submitted, completion not reaped); first: {len} bytes at {ptr:#x} - the kernel may still read it"));
+        }
+        (u.queued, u.completed, u.completed_with_error, u.in_flight.len(), violations)
     }
 
     /// Install (or remove) a closure run by the arriving thread at every scheduling point.
